@@ -733,15 +733,37 @@ def E.supported : E → Bool
   | .bin _ a b => a.supported && b.supported
   | .idx e i => e.supported && i.supported
   | .newDeque c => c.supported
-  | _ => true
+  | .len e => e.supported
+  | .slice e lo hi => e.supported && lo.supported && hi.supported
+  | .rep e n => e.supported && n.supported
+  | .compRange body _ lo hi => body.supported && lo.supported && hi.supported
+  | .compList body _ it => body.supported && it.supported
+  | .compZip body _ _ a b => body.supported && a.supported && b.supported
+  | .agg _ e => e.supported
+  | .reversed e => e.supported
+  | .tuple a b => a.supported && b.supported
+  | .ifExp c a b => c.supported && a.supported && b.supported
+  | .sorted e => e.supported
+  | .lastSnd e => e.supported
+  | .loc _ | .attr _ | .pinf | .ninf | .int _ | .cmpc _ | .emptyList | .noneLit | .strLit _ => true
 
 def S.supported : S → Bool
   | .unsupported _ => false
+  | .skip => true
+  | .raise _ => true
+  | .reverseLoc _ => true
   | .seq a b => a.supported && b.supported
   | .for_ _ lo hi body => lo.supported && hi.supported && body.supported
   | .ite c t e => c.supported && t.supported && e.supported
   | .setLoc _ e | .setAttr _ e | .append _ _ e => e.supported
-  | _ => true
+  | .forIn _ it body => it.supported && body.supported
+  | .forDown _ hi lo body => hi.supported && lo.supported && body.supported
+  | .appendLoc _ e => e.supported
+  | .insertLoc _ pos e => pos.supported && e.supported
+  | .forEnum _ _ it body => it.supported && body.supported
+  | .unpack _ _ e => e.supported
+  | .forPair _ _ it body => it.supported && body.supported
+  | .setLastSnd _ e => e.supported
 
 def Method.supported (m : Method) : Bool :=
   m.body.supported && (match m.ret with | some e => e.supported | none => true)
